@@ -18,7 +18,25 @@ pub fn exec(rec: &Value, _st: &mut State) -> Value {
     match op {
         "mesh" => {
             let reps = gi(rec, "reps");
-            let mesh = mesh_from(rec);
+            let sc = (2.0f64).powi(gi_or(rec, "sc", 0) as i32);
+            // optional `split` [vertices, faces]: the mesh is assembled in two steps - the first part is built and QUERIED
+            // (patches, edge table), then the rest is appended to the same object - and observed after that
+            let mesh = match rec.get("split").and_then(|v| v.as_array()) {
+                None => mesh_from(rec),
+                Some(sp) => {
+                    let (nv, nf) = (sp[0].as_u64().unwrap() as usize, sp[1].as_u64().unwrap() as usize);
+                    let vp = gvvi(rec, "vpos");
+                    let fs = gvvi(rec, "faces");
+                    let pt = |p: &Vec<i64>| Point3::new(p[0] as f64 * sc, p[1] as f64 * sc, p[2] as f64 * sc);
+                    let mut a = Mesh::new(vp[..nv].iter().map(pt).collect(), fs[..nf].iter().map(|f| [f[0] as u32, f[1] as u32, f[2] as u32]).collect(), false);
+                    let b = Mesh::new(vp[nv..].iter().map(pt).collect(), fs[nf..].iter().map(|f| [(f[0] as usize - nv) as u32, (f[1] as usize - nv) as u32, (f[2] as usize - nv) as u32]).collect(), false);
+                    let _ = a.get_patches();
+                    let _ = a.calc_edges();
+                    let _ = a.get_patch_boundary_points();
+                    a.append(&b).expect("append");
+                    a
+                }
+            };
             let mut loops_reps = vec![];
             let mut patches_reps = vec![];
             let mut first = json!(null);
@@ -27,7 +45,7 @@ pub fn exec(rec: &Value, _st: &mut State) -> Value {
                 match mesh.calc_edges() {
                     Ok(e) => {
                         if k == 0 {
-                            first = json!({"edges": e.edges, "elen": q.qv(&e.edge_lengths, 1024.0), "face_edges": e.face_edges});
+                            first = json!({"edges": e.edges, "elen": q.qv(&e.edge_lengths, 1024.0 / sc), "face_edges": e.face_edges});
                         }
                         loops_reps.push(json!(e.boundary_loops));
                     }
